@@ -283,9 +283,13 @@ package engine
 //@   loop 2 decreases len(rows) - rangeindex
 //@   loop 3 invariant (newVals == nil || fresh(newVals)) && len(newVals) == rangeindex + 1
 //@   loop 3 invariant forall i int :: 0 <= i && i < len(rows) ==> rows[i] != nil
-//.@   loop 3 invariant forall c int :: 0 <= c && c <= rangeindex ==>
-//.@              (isAgg(selectList, c) ==> typeof(newVals[c]) == typ(int64)) && (isCountStar(selectList, c) ==> newVals[c] == int64(1)) &&
-//.@              (isCountCol(selectList, c) ==> newVals[c] == (old(row.Vals[lookup[countCol(selectList,c)]]) != nil ? int64(1) : int64(0)))
+// Seed values of the aggregates, per row (row.Vals is only replaced after the loop): COUNT(*) starts at 1, every aggregate column
+// holds an int64.
+//@   loop 3 invariant[seed.typed; C07] forall c int :: 0 <= c && c <= rangeindex && isAgg(selectList, c) ==> typeof(newVals[c]) == typ(int64)
+//@   loop 3 invariant[seed.star; C07] forall c int :: 0 <= c && c <= rangeindex && isCountStar(selectList, c) ==> newVals[c] == int64(1)
+// (not discharged within the limits: the NULL test of COUNT(col) against the row's own value needs newVals and row.Vals apart)
+//.@   loop 3 invariant[seed.col; C07] forall c int :: 0 <= c && c <= rangeindex && isCountCol(selectList, c) ==>
+//.@              newVals[c] == (row.Vals[lookup[countCol(selectList,c)]] != nil ? int64(1) : int64(0))
 //@   loop 3 decreases len(selectList) - rangeindex
 //@   loop 4 invariant (headerRow == nil || fresh(headerRow)) && len(headerRow) == rangeindex + 1 && storage.fieldsOK(headerRow)
 //@   loop 4 invariant forall i int :: 0 <= i && i < len(rows) ==> rows[i] != nil && len(rows[i].Vals) == len(selectList)
